@@ -303,6 +303,7 @@ func smallScope(c *vrep.Ctx, prop string) {
 
 func corpusScale(c *vrep.Ctx, prop string) {
 	t, _ := strconv.ParseFloat(c.Param("t", "0.8"), 64)
+	vCaseThreshold = t
 	cl := vEmbeddedCached(t)
 	if c.Param("trace", "off") == "all" {
 		// every phase of every license traced into a sink (diagnostic code on the scoring path)
